@@ -509,6 +509,12 @@ def extra_obligations(mods, tier, seed):
     and delays (BOUNDED; the fragment proofs bypass the parser's argument resolution by construction)"""
     from progs import devdiff
     out = devdiff.obligations("C04/diff", devdiff.actuator_scripts(), what="getter values and delays equal the host class's under CPython")
+    from progs.concat import concat_obligations
+    out += concat_obligations("C04", {
+        "Led": ("d = Led(9)", ["d.on()", "d.off()", "d.toggle()", "d.set_brightness(77)", "d.blink(20, 2)", "d.fade_in(50, 3)", "d.flash_pattern([1, 0], 10)"]),
+        "RGBLed": ("d = RGBLed(9, 10, 11)", ["d.set_color(1, 2, 3)", "d.on()", "d.off()", "d.blink(9, 9, 9, 2, 10)", "d.fade(10, 20, 30, 100, 4)"]),
+        "Servo": ("d = Servo(6)", ["d.write(90)", "d.write_us(1500)", "d.write(10.5)"]),
+        "DCMotor": ("d = DCMotor(2, 3, 5)", ["d.set_speed(0.5)", "d.backward()", "d.stop()", "d.coast()", "d.invert()", "d.ramp(1.0, 100)", "d.run_for(50, 0.5)"])})
     PROPERTY.setdefault("bounded", [])
     PROPERTY["bounded"] = [b for b in PROPERTY["bounded"] if b.get("check") != "device differential"] + [
         {"check": "device differential", "bound": f"{len(out)} scripts (Led, RGBLed, Servo, DCMotor commands with literal positional/keyword arguments), setup() + 2 passes"}]
